@@ -221,3 +221,39 @@ PROPS["C20"] = dict(
     trusted_base=DEV_TB,
     assumptions=COMMON_AS,
 )
+
+PROPS["C12"] = dict(
+    gen=cases.gen_C12,
+    oracle=cases.oracle_C12,
+    mask={"cat", "time", "unit", "float"},
+    tol=NUM_TOL,
+    rule="both variants (f32 / Quantity) of both filters: every interleaving of {present, absent, Err(1), Err(2)} up to length 4; random "
+         "histories up to 64 (128) events with non-decreasing, sometimes repeated timestamps (dt: log-uniform 1 us..2 h, fixed grids, "
+         "uniform), windows from 1 ns to 2 h incl. shorter than a step, smoothing in {0, 1, .5, .25, .9, .01, uniform[0,1]}; constant "
+         "inputs; compared bit-for-bit with the Float32 model (powf = Float32.pow vs f32::powf); range oracle on the implementation's "
+         "numbers (output within [min,max] of the samples since the last reset) and no-panic oracle",
+    trusted_base=COMMON_TB + ["powf: assumed powf b 0 = 1 and 0<=powf b d<=1 for b in [0,1], d>=0 (tier-R hypotheses of ewma_convex*)"],
+    assumptions=["timestamps and window stay inside the i64 no-overflow range: `output.time - window` and `output.time - prev_time` are "
+                 "plain i64 subtractions in the code (i64::MIN timestamps overflow; outside the modelled range)",
+                 "Quantity inputs keep one unit"],
+    partial="Proved: no-panic for every history and positive window, queue invariant, weights non-negative and summing exactly to the "
+            "window, output formulas (tier S); convexity/constant/first-sample (tier R with the powf hypotheses); variants agree (EWMA: no "
+            "law; MA: 0 + x = x). Not proved: binary32 rounding of the averages ('up to rounding').",
+)
+
+PROPS["C10"] = dict(
+    gen=cases.gen_C10,
+    oracle=cases.oracle_shift("C10"),
+    mask={"cat", "time", "unit", "float"},
+    tol=NUM_TOL,
+    rule="integral and derivative streams on all 49 input units, the three to-state converters on their own unit: random histories up "
+         "to 64 (128) samples of a nonlinear signal (quadratic + sine + noise, so rectangle != trapezoid and first != second differences) "
+         "with strictly increasing timestamps (dt log-uniform 1 us..2 h), interleaved with absent and error events; every history paired "
+         "with its constant-shifted copy (outputs must be identical apart from timestamps); wrongly dimensioned input on all 49 units for "
+         "the converters (must panic iff the unit is wrong); unit change mid-stream; every interleaving up to length 4",
+    trusted_base=COMMON_TB,
+    assumptions=COMMON_AS,
+    partial="Proved: outputs equal non-incremental trapezoid-sum / backward-difference specifications of the current run for every history, "
+            "absent-until thresholds, newest timestamp, output units, unit panics, shift invariance (tier S); exactness on linear signals "
+            "(tier R). Not proved: binary32 rounding (the property's comparison against an f64 reference with a forward error bound).",
+)
